@@ -800,10 +800,25 @@ func (h *anteH) apply(ctx sdk.Context, s cfgSpec) {
 				strings.ToUpper(t.denom), t.denom, "", 6, "", "", "", 0, sdkmath.ZeroInt(), "", false, "", "")
 			info = &ni
 		}
+		existed := app.TokensKeeper.GetTokenInfo(ctx, t.denom) != nil
 		info.FeeRate = sdk.MustNewDecFromStr(t.rate)
 		info.FeeEnabled = t.feeOn
-		if err := app.TokensKeeper.UpsertTokenInfo(ctx, *info); err != nil {
+		// by the keeper or - for a registered token - by the content handler of an UpsertTokenInfos proposal, as governance
+		// re-prices a token or switches its fee payments off: whichever path wrote it, the fee decorator reads what was set
+		var err error
+		path := "keeper"
+		if existed && h.r.Rng.Intn(2) == 0 {
+			path = "proposal"
+			err = h.w.Enact(ctx, 0, tokenstypes.NewUpsertTokenInfosProposal(info.Denom, info.TokenType, info.FeeRate, info.FeeEnabled, info.Supply, info.SupplyCap, info.StakeCap, info.StakeMin, info.StakeEnabled, info.Inactive,
+				info.Symbol, info.Name, info.Icon, info.Decimals, info.Description, info.Website, info.Social, info.Holders, info.MintingFee, info.Owner, info.OwnerEditDisabled, info.NftMetadata, info.NftHash))
+		} else {
+			err = app.TokensKeeper.UpsertTokenInfo(ctx, *info)
+		}
+		h.r.Count("cfg:token-rate-by-" + path)
+		if err != nil {
 			h.r.Count("cfg:token-rejected")
+		} else if got := app.TokensKeeper.GetTokenInfo(ctx, t.denom); got == nil || !got.FeeRate.Equal(info.FeeRate) || got.FeeEnabled != t.feeOn {
+			h.r.Fail("C09/config/token-fee-not-as-set", fmt.Sprintf("token %s set (by %s) to fee rate %s, fee payments %v: accepted, the registry reads %+v", t.denom, path, t.rate, t.feeOn, got), nil)
 		}
 	}
 	if s.setLists {
